@@ -6,6 +6,10 @@ Layer 3: end-to-end on both workers, HTTP/1.0, 1.1 and 2, every two-way split of
 one-byte-per-read splits, eager / lazy / slow consumers (more chunks than the app queue holds).
 Layer 4: HTTP/2 connections carrying several requests, with applications that answer before (or without) reading the
 body and clients that upload late: what a later request's application receives must not depend on them.
+Layer 5: requests that last longer than a small keep_alive_timeout (uploads in pieces with pauses in virtual time, late
+consumers, abandoned uploads) over every entry path: HTTP/1.0, 1.1 (content-length, chunked, an h2c offer that is not taken
+up), cleartext HTTP/2 with prior knowledge (preface + SETTINGS + HEADERS + DATA in one read or cut anywhere), h2c upgrade,
+ALPN h2; both workers.
 All layers run under the configurations the statement names: raw headers on/off x server names set/unset, with the
 client's own spelling of the header names (`Host`, `host`, `HOST` ...)."""
 from __future__ import annotations
@@ -23,9 +27,9 @@ SPEC = {
     "modules": ["HC.Props.C01"],
     "extracted": ["Guards", "Consts", "H11Tables", "ReqGlue", "Runtime", "C04Sites"],
     "technique": "Lean 4: scope construction law (target split, method, headers), per-event forwarding lemmas and a transducer theorem for runs of body events (concatenation / one final message / segmentation independence at the glue), filter_pseudo_headers spec, one instance per request (with C06 serial); HTTP/2 END TO END: a contents-carrying wrapper of the C04 receive-side model of H2Protocol (HC/Proto/H2Deliver.lean: header lists, DATA payloads, flow-controlled lengths), frame conditions for every operation of that model, and delivery theorems over every run (h2_request_delivered, h2_request_end_to_end, h2_data_acked) composed with the HTTPStream transducer — tied by direct drive of H11Protocol with h11 taps, by direct drive of the real H2Protocol (tap log replayed through the composed model: scopes, http.request messages, acknowledgements), and by end-to-end runs on both workers over every two-way split",
-    "level_text": "Proved in Lean: the HTTP/1 scope is exactly (upper-cased method, target split at the first '?' with nothing lost, version, header list as h11 reports it or raw when configured); a WebSocket scope is chosen iff GET + Upgrade: websocket + Connection upgrade token; on HTTP/2 the header list is host (from :authority, else host) followed by the non-pseudo, non-host headers in order; every Data / EndOfMessage event of the parser is forwarded to the live instance as exactly one http.request message carrying those bytes; for every chunking of the body the messages concatenate to the body with exactly one more_body=False message iff the parser reported completion, independently of how the parser cut the bytes; handling a Request spawns exactly one instance, and (C06) only when none is live; the server-name decision (host-header test extracted from utils.valid_server_name) is the same for the raw and the lower-cased header list, so configuring raw headers never changes whether an instance is started; on HTTP/2 every DataReceived acknowledges exactly its flow-controlled length whether or not its stream still exists (call counts extracted from _handle_events), so the connection receive window is conserved over any sequence of DATA events.  HTTP/2 END TO END (theorems h2_request_delivered / h2_request_end_to_end / h2_data_acked): for every run of the receive side of H2Protocol - h2 events of any number of streams, PRIORITY / WINDOW_UPDATE / SETTINGS, the applications' stream_send calls and the send task's iterations in any order, the libraries answering as they may - in which a stream not known before receives RequestReceived(headers), then DataReceived events, then StreamEnded iff the client completed the body, the request being one _create_stream accepts and the stream not being removed in between (no RST_STREAM for it, connection not closed, its application not finished): exactly one stream object is created for it, its scope is (:method upper-cased, :path split at the first '?' with nothing lost, header list = filter_pseudo_headers(headers), HTTP version 2), and it is handed exactly one Body per DATA event carrying that event's payload, in order, then EndBody iff StreamEnded came - so the http.request messages concatenate to the DATA payloads with exactly one final message iff the client ended the stream, whatever the other streams did; and in EVERY run (reset streams, finished applications, closed connection included) every DATA event is acknowledged exactly once with its flow-controlled length, in order (the per-path call counts of the receive-side model = the extracted ones: h2_ack_paths).  The argument lists of Request(...), Body(...), the header loop of _create_stream are extracted and pinned.  The composed model is tied to the code by direct drive of the real H2Protocol with real HTTPStreams (frame-level sessions: several requests with bodies in several DATA frames incl. empty and padded ones, frames of the streams interleaved, applications answering early, resets): the tap log is replayed through it and the scopes, the http.request messages each application was put, the acknowledgements (stream, amount) and the abstract request flags must agree; where the theorem's hypotheses hold its conclusion is evaluated on the implementation's own observations.  That the parsers' events carry the client's bytes for every segmentation is library behaviour: sampled end-to-end on both workers (HTTP/1.0, 1.1, 2; content-length, chunked, DATA frames; every two-way split of requests <= 300 bytes, random k-way and one-byte-per-read splits; eager, lazy and slow consumers with more chunks than the bounded app queue holds; raw headers on/off x server names set/unset with the client's own spelling of Host; HTTP/2 connections with several requests, applications answering before or without reading the body and late uploads).",
+    "level_text": "Proved in Lean: the HTTP/1 scope is exactly (upper-cased method, target split at the first '?' with nothing lost, version, header list as h11 reports it or raw when configured); a WebSocket scope is chosen iff GET + Upgrade: websocket + Connection upgrade token; on HTTP/2 the header list is host (from :authority, else host) followed by the non-pseudo, non-host headers in order; every Data / EndOfMessage event of the parser is forwarded to the live instance as exactly one http.request message carrying those bytes; for every chunking of the body the messages concatenate to the body with exactly one more_body=False message iff the parser reported completion, independently of how the parser cut the bytes; handling a Request spawns exactly one instance, and (C06) only when none is live; the server-name decision (host-header test extracted from utils.valid_server_name) is the same for the raw and the lower-cased header list, so configuring raw headers never changes whether an instance is started; on HTTP/2 every DataReceived acknowledges exactly its flow-controlled length whether or not its stream still exists (call counts extracted from _handle_events), so the connection receive window is conserved over any sequence of DATA events.  HTTP/2 END TO END (theorems h2_request_delivered / h2_request_end_to_end / h2_data_acked): for every run of the receive side of H2Protocol - h2 events of any number of streams, PRIORITY / WINDOW_UPDATE / SETTINGS, the applications' stream_send calls and the send task's iterations in any order, the libraries answering as they may - in which a stream not known before receives RequestReceived(headers), then DataReceived events, then StreamEnded iff the client completed the body, the request being one _create_stream accepts and the stream not being removed in between (no RST_STREAM for it, connection not closed, its application not finished): exactly one stream object is created for it, its scope is (:method upper-cased, :path split at the first '?' with nothing lost, header list = filter_pseudo_headers(headers), HTTP version 2), and it is handed exactly one Body per DATA event carrying that event's payload, in order, then EndBody iff StreamEnded came - so the http.request messages concatenate to the DATA payloads with exactly one final message iff the client ended the stream, whatever the other streams did; and in EVERY run (reset streams, finished applications, closed connection included) every DATA event is acknowledged exactly once with its flow-controlled length, in order (the per-path call counts of the receive-side model = the extracted ones: h2_ack_paths).  The argument lists of Request(...), Body(...), the header loop of _create_stream are extracted and pinned.  The composed model is tied to the code by direct drive of the real H2Protocol with real HTTPStreams (frame-level sessions: several requests with bodies in several DATA frames incl. empty and padded ones, frames of the streams interleaved, applications answering early, resets): the tap log is replayed through it and the scopes, the http.request messages each application was put, the acknowledgements (stream, amount) and the abstract request flags must agree; where the theorem's hypotheses hold its conclusion is evaluated on the implementation's own observations.  That the parsers' events carry the client's bytes for every segmentation is library behaviour: sampled end-to-end on both workers (HTTP/1.0, 1.1, 2; content-length, chunked, DATA frames; every two-way split of requests <= 300 bytes, random k-way and one-byte-per-read splits; eager, lazy and slow consumers with more chunks than the bounded app queue holds; raw headers on/off x server names set/unset with the client's own spelling of Host; HTTP/2 connections with several requests, applications answering before or without reading the body and late uploads; requests that last longer than a small keep_alive_timeout - uploads in pieces with pauses, late consumers, abandoned uploads - over HTTP/1.0, HTTP/1.1 content-length / chunked / with an h2c offer that is not taken up, cleartext HTTP/2 with prior knowledge with the preface, SETTINGS, HEADERS and first DATA in one read or cut anywhere, h2c upgrade and ALPN h2).",
     "level_note": "Trusted: Lean kernel; models HC/Proto/H11.lean, HC/Stream/Http.lean, HC/Pure/Utils.lean (differential runs); h11 / h2 / hpack parsing and the asyncio Queue / trio memory channel FIFO semantics are library behaviour (sampled); urllib.parse.unquote is compared with an independent percent-decoder written in the harness; the receive-side model of H2Protocol HC/Proto/H2Recv.lean is C04's (tied by its differential run) and its contents wrapper HC/Proto/H2Deliver.lean is tied by the direct-drive comparison here; what h2 reports in RequestReceived / DataReceived for the client's bytes (HPACK, padding, segmentation) is library behaviour (sampled end to end); the bounded application queue between HTTPStream and the application is asyncio's / trio's (sampled end to end with more chunks than it holds).",
-    "rule": "request kinds x framing x body-size class x split class x consumer class x protocol x worker x configuration (raw headers, server names); HTTP/2 connection sessions: mode x consumer x upload timing x body-size class; every two-way split of sessions <= 300 bytes is enumerated (exhaustive for those sessions); distinct = (protocol, framing, pipeline length, body-size class, split class, consumer class); non-trivial = non-empty body or a pipeline",
+    "rule": "request kinds x framing x body-size class x split class x consumer class x protocol x worker x configuration (raw headers, server names); HTTP/2 connection sessions: mode x consumer x upload timing x body-size class; slow sessions: entry path (h1.0, h1.1 cl/chunked/h2c offer with body, prior knowledge, h2c upgrade, ALPN) x worker x cut of the first bytes x consumer x (upload longer than the keep-alive time-out or not) x completed/abandoned; every two-way split of sessions <= 300 bytes is enumerated (exhaustive for those sessions); distinct = (protocol, framing, pipeline length, body-size class, split class, consumer class); non-trivial = non-empty body or a pipeline",
     "trusted": ["h11 0.16 / h2 4.4.1 parsers", "asyncio.Queue and trio memory channels"],
     "partial": ["methods are compared after ASCII upper-casing; non-UTF-8 percent-escapes are compared through Python's replacement policy"],
     "assumptions": [],
@@ -758,8 +762,262 @@ def check_h2glue(ctx: Ctx, cases: List[dict]) -> None:
         ctx.sample({"family": "h2glue", "kinds": case["kinds"], "apps": case["apps"], "ops": len(rich)}, cap=3)
 
 
+# --------------------------------------------------------------------------------------------------------------
+# Layer 5: requests that last longer than the keep-alive time-out, over every way a connection comes to speak
+# HTTP/1 or HTTP/2 ("every relative timing between reads and application progress" x "every way the request bytes
+# are split across network reads"): the body is uploaded piece by piece with pauses (virtual time) whose total
+# exceeds a small keep_alive_timeout, or the application starts to read later than that; the first bytes of the
+# connection (request head / connection preface + SETTINGS + HEADERS + first DATA) arrive in one read or cut in two.
+# --------------------------------------------------------------------------------------------------------------
+SLOW_T = 1.0          # keep_alive_timeout of these sessions (virtual seconds)
+SLOW_ENTRIES = [
+    "h11_cl", "h11_chunked", "h10_cl",     # HTTP/1.1 content-length / chunked, HTTP/1.0
+    "h11_h2c_body",                        # HTTP/1.1 request with a body that offers `Upgrade: h2c` (not taken up: served as HTTP/1.1)
+    "prior",                               # cleartext HTTP/2 with prior knowledge: h11 sees `PRI * HTTP/2.0`, the wrapper switches
+    "h2c",                                 # cleartext HTTP/2 by upgrade: GET with `Upgrade: h2c` (stream 1), the upload is stream 3
+    "alpn",                                # TLS with ALPN h2
+]
+SLOW_TARGET = "/up%41/b?x=1&y=%2F"
+
+
+def slow_parts(case: dict) -> List[bytes]:
+    """the pieces of the body, one per client write (distinct contents: a lost, repeated or reordered piece shows)"""
+    return [bytes((i * 41 + j + case["seed"]) % 251 for j in range(n)) for i, n in enumerate(case["sizes"])]
+
+
+def slow_cut(blob: bytes, cut: Any) -> Optional[int]:
+    """where the first bytes of the connection are cut: None = one read; k = after k bytes; "head" = after the HTTP/1 request head /
+    after the HTTP/2 connection preface and the client's SETTINGS frame"""
+    if cut == "head":
+        if blob.startswith(b"PRI * HTTP/2.0\r\n\r\nSM\r\n\r\n"):
+            cut = 24 + 9 + int.from_bytes(blob[24:27], "big")
+        else:
+            cut = blob.find(b"\r\n\r\n") + 4
+    return cut if isinstance(cut, int) and 0 < cut < len(blob) else None
+
+
+def slow_observe(case: dict, cut: Any) -> dict:
+    entry, worker = case["entry"], case["worker"]
+    parts = slow_parts(case)
+    complete = case["complete"]
+    to_send = parts if complete else parts[:-1]      # an abandoned upload: the last piece never leaves the client
+    total = sum(len(p) for p in parts)
+    scripts = [consumer_script(case["consumer"])]
+    if entry == "h2c":
+        scripts = [consumer_script("eager"), consumer_script(case["consumer"])]
+    info: Dict[str, Any] = {}
+
+    async def first_read(io, blob: bytes) -> None:
+        k = slow_cut(blob, cut)
+        info["first"] = [len(blob), k]
+        if k is None:
+            await io.send(blob)
+        else:
+            await io.send(blob[:k])
+            if case.get("cut_gap"):
+                await io.sleep(case["cut_gap"])
+            await io.send(blob[k:])
+
+    async def rest(io, emit) -> None:
+        for i in range(1, len(to_send)):
+            await io.sleep(case["pauses"][i - 1])
+            await emit(i)
+        if complete:
+            await io.sleep(3.0)
+        else:
+            # the client gives up: it waits (longer than the time-out) and closes
+            await io.sleep(case.get("linger", 2.37))
+            await io.eof()
+            await io.sleep(1.0)
+
+    cfg = {"keep_alive_timeout": case.get("T", SLOW_T), **(case.get("cfg") or {})}
+    if entry in ("prior", "h2c", "alpn"):
+        async def client(io):
+            c = C.H2Client(upgrade=(entry == "h2c"))
+            hs = C.h2_headers("POST", SLOW_TARGET, authority="x", extra=[(b"x-entry", entry.encode())])
+            end0 = complete and len(parts) == 1
+            if entry == "h2c":
+                uh = [(b"Host", b"x"), (b"Connection", b"Upgrade, HTTP2-Settings"), (b"Upgrade", b"h2c"), (b"HTTP2-Settings", c.upgrade_settings)]
+                await first_read(io, C.h1_request("GET", "/first?u=1", uh))
+                got = io.take()
+                head, _, tail = got.partition(b"\r\n\r\n")
+                if not head.startswith(b"HTTP/1.1 101"):
+                    raise RuntimeError(f"no 101 to the h2c upgrade: {got[:60]!r}")
+                c._st(1)
+                c.receive(tail)
+                await c.pump(io)
+                sid = c.request(hs, to_send[0] if to_send else b"", end=end0)      # HEADERS + first DATA in one read
+                await c.pump(io)
+            else:
+                # connection preface, SETTINGS, HEADERS and the first DATA frame leave the client together
+                sid = c.request(hs, to_send[0] if to_send else b"", end=end0)
+                await first_read(io, c.out())
+                await c.pump(io)
+
+            async def emit(i: int) -> None:
+                c.send_data(sid, to_send[i], complete and i == len(parts) - 1)
+                await c.pump(io)
+            await rest(io, emit)
+            await c.pump(io)
+            return {"first": info.get("first"), "error": c.error, "goaway": c.goaway, "unsent": {str(k): len(v[0]) for k, v in c.pending.items()}}
+        res = R.RUNNERS[worker](cfg, "h2" if entry == "alpn" else None, client, scripts, tail=10)
+    else:
+        version = "1.0" if entry == "h10_cl" else "1.1"
+        chunked = entry == "h11_chunked"
+        hs = slow_h1_headers(entry, total)
+        head = f"POST {SLOW_TARGET} HTTP/{version}\r\n".encode() + b"".join(s2b(n) + b": " + s2b(v) + b"\r\n" for n, v in hs) + b"\r\n"
+
+        def enc(i: int) -> bytes:
+            p = to_send[i]
+            if not chunked:
+                return p
+            out = (b"%x\r\n" % len(p) + p + b"\r\n") if p else b""
+            return out + (b"0\r\n\r\n" if complete and i == len(parts) - 1 else b"")
+
+        async def client(io):
+            await first_read(io, head + (enc(0) if to_send else b""))
+
+            async def emit(i: int) -> None:
+                if io.closed_at is None and enc(i):      # (a client stops writing once the server has closed)
+                    await io.send(enc(i))
+            await rest(io, emit)
+            return {"first": info.get("first")}
+        res = R.RUNNERS[worker](cfg, None, client, scripts, tail=10)
+    apps = []
+    for a in res["apps"]:
+        msgs = [m for m in a["recv"] if m[1] == "http.request"]
+        fin = [i for i, m in enumerate(msgs) if m[3] is False]
+        apps.append({"scope": a["scope"], "body": "".join(m[2] for m in msgs), "finals": len(fin), "after_final": len(msgs) - fin[0] - 1 if fin else 0,
+                     "recv": [[m[0], m[1]] + ([len(m[2]), m[3]] if m[1] == "http.request" else []) for m in a["recv"]][-6:], "exit": a["exit"]})
+    # (the session runs in a forked child: what the client noted comes back with its result)
+    client_result = dict(res.get("client_result") or {})
+    first = client_result.pop("first", None)
+    return {"apps": apps, "error": res["error"], "loop_errors": res["loop_errors"], "client_error": res["client_error"], "client": client_result or None,
+            "closed_at": res.get("closed_at"), "first": first, "stuck": bool(res.get("stuck_session"))}
+
+
+def slow_h1_headers(entry: str, total: int) -> List[List[str]]:
+    hs = [["Host", "x"], ["X-Entry", entry]]
+    if entry == "h11_h2c_body":
+        hs += [["Connection", "Upgrade, HTTP2-Settings"], ["Upgrade", "h2c"], ["HTTP2-Settings", "AAMAAABkAAQAAP__"]]
+    hs.append(["Transfer-Encoding", "chunked"] if entry == "h11_chunked" else ["Content-Length", str(total)])
+    return hs
+
+
+def slow_expected(case: dict) -> List[dict]:
+    """what the statement demands of the instances of a session: scope fields, body, whether the client completed it"""
+    entry = case["entry"]
+    parts = slow_parts(case)
+    sent = b"".join(parts if case["complete"] else parts[:-1])
+    raw_path, _, query = SLOW_TARGET.encode().partition(b"?")
+    up = {"method": "POST", "raw_path": b2s(raw_path), "query_string": b2s(query), "path": pct_decode(raw_path), "body": sent, "complete": case["complete"],
+          "client": ["127.0.0.1", 4242], "server": ["162.1.1.1", 80]}
+    if entry in ("prior", "h2c", "alpn"):
+        up.update({"http_version": "2", "scheme": "https" if entry == "alpn" else "http", "headers": [["host", "x"], ["x-entry", entry]]})
+    else:
+        up.update({"http_version": "1.0" if entry == "h10_cl" else "1.1", "scheme": "http",
+                   "headers": [[n.lower(), v] for n, v in slow_h1_headers(entry, sum(len(p) for p in parts))]})
+    if entry != "h2c":
+        return [up]
+    first = {"method": "GET", "raw_path": "/first", "query_string": "u=1", "path": "/first", "http_version": "2", "scheme": "http", "body": b"", "complete": True,
+             "client": up["client"], "server": up["server"]}
+    return [first, up]
+
+
+def slow_corpus() -> List[dict]:
+    """deterministic, first in every tier: every entry x both workers x
+    A: four pieces 0.45 s apart (each pause shorter than the time-out, the upload longer), first bytes in one read / cut inside the preface or the
+       request line / after the preface / after the request head (HTTP/2: after preface + SETTINGS);
+    B: one pause longer than the time-out;  C: the upload is quick, the application starts to read after 2 s and its queue holds 2 messages;
+    D: the client abandons the upload after a pause and closes later: no final message"""
+    out = []
+    k = 0
+    for worker in ("asyncio", "trio"):
+        for entry in SLOW_ENTRIES:
+            k += 1
+            base = {"family": "slow", "entry": entry, "worker": worker, "T": SLOW_T, "seed": 500 + k, "complete": True, "consumer": "eager"}
+            out.append({**base, "sizes": [23, 12, 19, 500], "pauses": [0.45, 0.45, 0.45], "cuts": [None, 18, 24, "head"]})
+            out.append({**base, "sizes": [10, 700], "pauses": [1.37], "cuts": [None, "head"]})
+            out.append({**base, "sizes": [300, 300, 300, 300], "pauses": [0.29, 0.29, 0.29], "consumer": "lazy", "cfg": {"max_app_queue_size": 2}, "cuts": [None, 24]})
+            out.append({**base, "sizes": [23, 12, 19], "pauses": [0.71], "complete": False, "linger": 2.37, "cuts": [None]})
+    return out
+
+
+def gen_slow(rng) -> dict:
+    entry = rng.choice(SLOW_ENTRIES + ["prior", "prior", "h2c"])
+    h2 = entry in ("prior", "h2c", "alpn")
+    consumer = rng.choice(["eager", "eager", "slow", "lazy"])
+    cut_gap = rng.choice([0, 0, 0.21])
+    for _ in range(50):
+        n = rng.choice([1, 2, 3, 4, 5])
+        sizes = [rng.choice([1, 17, 300, 5000, 20000] + ([0] if h2 else [])) for _ in range(n)]
+        pauses = [rng.choice([0.13, 0.29, 0.47, 0.53, 0.71, 1.37, 2.19]) for _ in range(n - 1)]
+        complete = rng.random() < 0.8
+        # no client action on the grid of the timers a session can have (time-out after the start of the connection / after the
+        # preface, the consumers' delays 0.5 s and 2 s): which of two things due at the same instant comes first is no one's promise
+        times, t = [], cut_gap
+        for p in pauses[:(n - 1) if complete else max(n - 2, 0)]:
+            t += p
+            times.append(t)
+        if not complete:
+            times.append(t + 2.37)
+        grid = [SLOW_T, SLOW_T + cut_gap, 0.5, 0.5 + cut_gap, 2.0, 2.0 + cut_gap, 2 * SLOW_T, 3 * SLOW_T]
+        if all(abs(x - g) > 0.025 for x in times for g in grid) and sum(sizes) <= 60000:
+            break
+    cfg: Dict[str, Any] = {}
+    if rng.random() < 0.35:
+        cfg["max_app_queue_size"] = rng.choice([1, 2, 3])
+    cuts: List[Any] = [None, rng.choice([18, 24, "head"]), rng.randint(1, 160)]
+    return {"family": "slow", "entry": entry, "worker": rng.choice(["asyncio", "trio"]), "T": SLOW_T, "seed": rng.randrange(1 << 30), "complete": complete,
+            "consumer": consumer, "sizes": sizes, "pauses": pauses, "cut_gap": cut_gap, "linger": 2.37, "cfg": cfg, "cuts": cuts}
+
+
+def check_slow(ctx: Ctx, sessions: List[dict]) -> None:
+    for case in sessions:
+        want = slow_expected(case)
+        sig = {"family": "slow", "entry": case["entry"], "worker": case["worker"]}
+        ref = None
+        span = sum(case["pauses"][:len(case["sizes"]) - (1 if case["complete"] else 2)]) if case["pauses"] else 0
+        for cut in case["cuts"]:
+            o = slow_observe(case, cut)
+            ctx.evaluations += 1
+            one = {**case, "cuts": [cut]}
+            k = (o["first"] or [0, None])[1]
+            ctx.count("slow.entry", case["entry"])
+            ctx.count("slow.first_bytes", "one read" if k is None else ("cut at " + (str(cut) if cut in (18, 24, "head") else "k")))
+            ctx.count("slow.timing", ("upload longer than the time-out" if span > case.get("T", SLOW_T) else "upload shorter") + f", consumer={case['consumer']}"
+                      + ("" if case["complete"] else ", abandoned"))
+            if o["stuck"] or o["error"] or o["loop_errors"] or o["client_error"] or (o["client"] or {}).get("error"):
+                ctx.violation("handler_exception", one, {k2: o[k2] for k2 in ("error", "loop_errors", "client_error", "client", "stuck")}, {**sig, "kind": "internal"})
+                continue
+            detail = {"first_bytes": None if o["first"] is None else {"length": o["first"][0], "cut_at": o["first"][1]}, "server_closed_at_ms": o["closed_at"],
+                      "client": o["client"]}
+            if len(o["apps"]) != len(want):
+                ctx.violation("instance_count", one, {"got": len(o["apps"]), "want": len(want), **detail}, sig)
+            for i, (a, w) in enumerate(zip(o["apps"], want)):
+                sc = a["scope"]
+                diff = {f: [sc.get(f), w[f]] for f in w if f not in ("body", "complete") and sc.get(f) != w[f]}
+                if diff:
+                    ctx.violation("scope", one, {"k": i, "diff": diff}, {**sig, "fields": sorted(diff)})
+                got = a["body"].encode("latin1")
+                # the body the client sent, byte for byte; exactly one final message iff the client completed it; nothing after it
+                if got != w["body"] or a["finals"] != (1 if w["complete"] else 0) or a["after_final"]:
+                    ctx.violation("body", one, {"k": i, "got": len(got), "want": len(w["body"]), "prefix": w["body"].startswith(got), "finals": a["finals"],
+                                                "client_completed": w["complete"], "last_messages": a["recv"], **detail}, {**sig, "complete": w["complete"]})
+                ctx.distinct(["slow", case["entry"], case["worker"], "one" if k is None else "cut", case["consumer"], span > case.get("T", SLOW_T), w["complete"],
+                              "big" if len(w["body"]) > 1000 else ("none" if not w["body"] else "small")])
+            # segmentation independence: the same bytes, cut differently, are the same request
+            view = [[a["scope"], a["body"], a["finals"]] for a in o["apps"]]
+            if ref is None:
+                ref = (cut, view)
+            elif view != ref[1]:
+                ctx.violation("segmentation_dependent", {**case, "cuts": [ref[0], cut]}, {"cuts": [ref[0], cut], **detail}, sig)
+        ctx.sample({"family": "slow", "entry": case["entry"], "sizes": case["sizes"], "pauses": case["pauses"], "consumer": case["consumer"], "cuts": case["cuts"]}, cap=4)
+
 
 def run(ctx: Ctx) -> None:
+    # requests in progress for longer than the keep-alive time-out, every entry path, both workers (deterministic corpus)
+    check_slow(ctx, slow_corpus())
     rng = ctx.rng
     cases = []
     for i in range(ctx.budget(500, 15000)):
@@ -795,6 +1053,8 @@ def run(ctx: Ctx) -> None:
     check_e2e(ctx, shorts, all_two_way=True)
     check_h2conn(ctx, h2conn_corpus() + [gen_h2conn(ctx) for _ in range(ctx.budget(30, 400))])
     check_h2glue(ctx, [gen_h2glue(rng, k) for k in range(ctx.budget(300, 6000))])
+    # ... and random sampling around that corpus
+    check_slow(ctx, [gen_slow(rng) for _ in range(ctx.budget(25, 600))])
 
 
 def replay(ctx: Ctx, case: dict) -> None:
@@ -806,6 +1066,8 @@ def replay(ctx: Ctx, case: dict) -> None:
         check_h2glue(ctx, [{k: v for k, v in case.items() if k != "sid"}])
     elif case.get("family") == "filter_pseudo":
         check_filter_pseudo(ctx, 200)
+    elif case.get("family") == "slow":
+        check_slow(ctx, [case])
     else:
         reads_sizes = case.get("reads")
         check_e2e(ctx, [case], all_two_way=True)
